@@ -19,14 +19,15 @@ Fixpoint sh_has_eval (s : fshape) : bool :=
   match s with
   | SBase he _ => he | SScaled e => sh_has_eval e | SSepNil => true
   | SSepCons a b | SSum a b => sh_has_eval a && sh_has_eval b
-  | SLoss _ _ | SLossNone _ | SSqL2 _ => true
+  | SLoss _ f => sh_has_eval f
+  | SLossNone _ | SSqL2 _ => true
   end.
 Fixpoint sh_has_prox (s : fshape) : bool :=
   match s with
   | SBase _ hp => hp | SScaled e => sh_has_prox e | SSepNil => true
   | SSepCons a b => sh_has_prox a && sh_has_prox b
   | SSum _ _ => false
-  | SLoss cls _ => is_identity cls | SLossNone _ => false | SSqL2 cls => is_linop cls
+  | SLoss cls f => sh_has_prox f && is_identity cls | SLossNone _ => false | SSqL2 cls => is_linop cls
   end.
 (** does the call return (true) or raise NotImplementedError (false) *)
 Fixpoint sh_eval_defined (s : fshape) : bool :=
@@ -40,7 +41,8 @@ Fixpoint sh_prox_defined (s : fshape) : bool :=
   | SBase _ hp => hp | SScaled e => sh_prox_defined e | SSepNil => true
   | SSepCons a b => sh_prox_defined a && sh_prox_defined b
   | SSum _ _ => false
-  | SLoss cls f => is_identity cls && sh_prox_defined f | SLossNone _ => false | SSqL2 cls => is_linop cls
+  | SLoss cls f => (sh_has_prox f && is_identity cls) && sh_prox_defined f
+  | SLossNone _ => false | SSqL2 cls => is_linop cls
   end.
 
 Fixpoint shape_of {S} (e : fexpr S) : fshape :=
@@ -68,7 +70,8 @@ Proof.
   - now destruct (b_has_prox b).
   - rewrite <- (IHe1 lam (fst v)), <- (IHe2 lam (snd v)).
     destruct (gen_prox e1 lam (fst v)), (gen_prox e2 lam (snd v)); reflexivity.
-  - destruct (is_identity cls); cbn; auto. rewrite <- (IHf (c * lam)%R (vsub v y)).
+  - rewrite <- shape_has_prox. destruct (gen_has_prox f && is_identity cls); cbn; auto.
+    rewrite <- (IHf (c * lam)%R (vsub v y)).
     now destruct (gen_prox f (c * lam) (vsub v y)).
   - now destruct (is_linop cls).
 Qed.
@@ -83,6 +86,25 @@ Proof.
   - rewrite <- (IHe1 x), <- (IHe2 x).
     destruct (gen_eval e1 x), (gen_eval e2 x); reflexivity.
   - rewrite <- (IHf (vsub (A x) y)). now destruct (gen_eval f (vsub (A x) y)).
+Qed.
+
+(** With Loss.__init__ propagating the flags of f, has_prox is set EXACTLY when prox is
+    available, for every expression and with no side condition; has_eval likewise for every
+    expression without an abstract Loss(y, f=None). *)
+Lemma sh_prox_flag_exact s : sh_prox_defined s = sh_has_prox s.
+Proof.
+  induction s; cbn; auto.
+  - now rewrite IHs1, IHs2.
+  - rewrite IHs. now destruct (sh_has_prox s), (is_identity cls).
+Qed.
+Theorem has_prox_exact S (e : fexpr S) lam v : is_some (gen_prox e lam v) = gen_has_prox e.
+Proof. now rewrite shape_prox_defined, sh_prox_flag_exact, shape_has_prox. Qed.
+
+Theorem has_eval_exact S (e : fexpr S) : wf_eval e -> forall x, is_some (gen_eval e x) = gen_has_eval e.
+Proof.
+  intros Hwf x. destruct (gen_has_eval e) eqn:F.
+  - now rewrite (gen_eval_correct S e Hwf F).
+  - now rewrite (gen_eval_unavailable S e F).
 Qed.
 
 (** a flag case: (shape, (has_eval, has_prox) of the real object, (eval works, prox works)) *)
